@@ -23,7 +23,7 @@ ASSUMPTIONS = ["image atoms are identified by (charge tag, lattice offset); atom
 
 @st.composite
 def case(draw, tier="quick"):
-    spec = draw(gen_atoms.typed_structure(min_atoms=1, max_atoms=6, max_terms=4, coords=draw(st.sampled_from(["in-cell", "anywhere"]))))
+    spec = draw(gen_atoms.typed_structure(min_atoms=1, max_atoms=6, max_terms=4, coords=draw(st.sampled_from(["in-cell", "anywhere"])), dups=True))
     if draw(st.integers(0, 11)) == 0:
         spec = gen_atoms.inflate(spec, 140 // len(spec["pos"]) + 1)         # > 127 atoms before, > 255 after replication
     ck = draw(st.sampled_from(["as-is", "as-is", "rotated"]))
